@@ -340,10 +340,16 @@ pub fn check_c20a(c: &Concrete, preamble: &str, std_free: bool) -> LayerA {
         let same = matches!((&reference.result, &fo.result), (ResultObs::Ok, ResultObs::Ok) | (ResultObs::Err(_), ResultObs::Err(_)));
         if !same {
             let word = |o: &Outcome| if matches!(o.result, ResultObs::Ok) { "accepted" } else { "rejected" };
+            // the one way this is known to happen: the program defines a name the preamble imports into every file
+            let with_std = if c.no_std { &fo } else { &reference };
+            let only_collisions = match &with_std.result {
+                ResultObs::Err(es) => !es.is_empty() && es.iter().all(|e| e.variant == "CompileError" && e.message.contains("Name collision")),
+                _ => false,
+            };
             vs.push(v(
                 "C20",
                 "no-std",
-                "verdict",
+                if only_collisions { "collision-with-preamble-name" } else { "verdict" },
                 format!("a program that does not use the standard library is {} with --no-std={} and {} with --no-std={}", word(&reference), c.no_std, word(&fo), flipped.no_std),
             ));
         }
